@@ -412,14 +412,15 @@ where
     SP::StateType: State + Clone + Bits,
 {
     let iters: u64 = if ctx.tier == "thorough" { 200 } else { 50 };
-    let nseeds: u64 = if ctx.tier == "thorough" { 3 } else { 1 };
+    let nseeds: u64 = if ctx.tier == "thorough" { 4 } else { 2 };
     for (label, space, scs) in sets {
         let lvs = space.get_longest_valid_segment_length();
         for sc in &scs {
             for kind in [Kind::Rrt, Kind::Star, Kind::Conn, Kind::Prm] {
                 for si in 0..nseeds {
                     // parameter rotation driven by the seed and the run number
-                    let rot = (ctx.seed as usize + ctx.run + si as usize) % 6;
+                    // every (scenario, planner) is run with a short-step and a long-step parameter set
+                    let rot = (ctx.seed as usize + ctx.run - si as usize + [0usize, 3, 1, 4, 2, 5][si as usize % 6]) % 6;
                     let longs = label.ends_with("-fine");
                     let maxd = if longs { [60.0, 45.0, 80.0, 50.0, 70.0, 40.0][rot] * lvs } else { [5.0, 5.0, 3.0, 0.6, 40.0, 8.0][rot] * lvs };
                     let radius = [1.5, 0.7, 2.0, 3.0, 0.2, 1.0][rot] * maxd;
@@ -578,6 +579,78 @@ fn resolution_zero_probe(ctx: &mut Ctx) {
     }
 }
 
+/// Re-setup on a DIFFERENT space: first a coarse, large, free world, then a fine-resolution small
+/// world with a thin wall; nothing of the first space (resolution, extent) may leak into the second.
+fn resetup_probe(ctx: &mut Ctx) {
+    let space_a = RealVectorStateSpace::new(2, Some(vec![(0.0, 100.0), (0.0, 100.0)])).unwrap();
+    let mut space_b = RealVectorStateSpace::new(2, Some(vec![(0.0, 10.0), (0.0, 10.0)])).unwrap();
+    space_b.set_longest_valid_segment_fraction(0.01);
+    let cl_a: Rc<dyn Fn(&RealVectorState) -> f64> = Rc::new(|_s| 1.0);
+    let cl_b: Rc<dyn Fn(&RealVectorState) -> f64> = Rc::new(|s: &RealVectorState| sdf_box(&s.values, &[4.85, 2.0], &[5.15, 11.0]));
+    for kind in [Kind::Rrt, Kind::Star, Kind::Conn, Kind::Prm] {
+        ctx.run += 1;
+        let run = ctx.run;
+        let iters = 40u64;
+        let desc = json!({"space": "rv2-resetup", "world": "coarse-free then fine-wall", "planner": kind.name(), "probe": "re-setup on a different space"});
+        if ctx.list {
+            println!("{}", json!({"run": run, "desc": desc}));
+            continue;
+        }
+        if let Some(o) = ctx.only {
+            if o != run {
+                continue;
+            }
+        }
+        if ctx.skip.contains(&run) {
+            continue;
+        }
+        if let Some(pf) = &ctx.progress {
+            std::fs::write(pf, format!("{}", run)).ok();
+        }
+        let params = Params { maxd: 30.0, bias: 0.1, radius: if kind == Kind::Prm { 6.0 } else { 40.0 }, build_ticks: 25, seed: Some(ctx.seed * 31 + run as u64) };
+        let mk = |sp: &RealVectorStateSpace, cl: &Rc<dyn Fn(&RealVectorState) -> f64>, st: [f64; 2], g: [f64; 2], r: f64| {
+            let cl = cl.clone();
+            Problem {
+                starts: vec![rv(&st)],
+                goal: Rc::new(BallGoal { space: sp.clone(), center: rv(&g), r }) as Rc<dyn HGoal<RealVectorState>>,
+                checker: Rc::new(move |s: &RealVectorState| cl(s) > 0.0) as Rc<dyn Fn(&RealVectorState) -> bool>,
+            }
+        };
+        let problems = vec![mk(&space_a, &cl_a, [10.0, 10.0], [90.0, 90.0], 5.0), mk(&space_b, &cl_b, [1.0, 5.0], [9.0, 5.0], 0.5)];
+        let calls: Vec<Call> = if kind == Kind::Prm {
+            vec![Call::Setup(0), Call::Construct, Call::Solve(5), Call::Setup(1), Call::Construct, Call::Solve(5)]
+        } else {
+            vec![Call::Setup(0), Call::Solve(iters), Call::Setup(1), Call::Solve(iters)]
+        };
+        let cfg = RunCfg::default();
+        let recs = run_history_spaces(kind, &params, &[space_a.clone(), space_b.clone()], &problems, &calls, &cfg, &|_, _| {});
+        let geoms = [
+            RealGeom { space: space_a.clone(), clearance: cl_a.clone(), label: "rv2-resetup".to_string() },
+            RealGeom { space: space_b.clone(), clearance: cl_b.clone(), label: "rv2-resetup".to_string() },
+        ];
+        let (ga, gb) = (space_a.clone(), space_b.clone());
+        let pinfo = vec![
+            ProblemInfo { start: Some(rv(&[10.0, 10.0])), goal_sat: Box::new(move |s: &RealVectorState| ga.distance(s, &rv(&[90.0, 90.0])) <= 5.0), feas: 1 },
+            ProblemInfo { start: Some(rv(&[1.0, 5.0])), goal_sat: Box::new(move |s: &RealVectorState| gb.distance(s, &rv(&[9.0, 5.0])) <= 0.5), feas: 1 },
+        ];
+        let mut an = Annot::new(&geoms[0], kind, params.clone());
+        an.reset(run, desc.clone());
+        for r in &recs {
+            if let Call::Setup(i) = r.call {
+                an.set_geom(&geoms[i]);
+            }
+            an.call(r, &pinfo);
+        }
+        let shard = ctx.nruns % ctx.outs.len();
+        for ev in &an.out {
+            writeln!(ctx.outs[shard], "{}", ev).unwrap();
+            ctx.nevents += 1;
+        }
+        ctx.nruns += 1;
+        ctx.index.push(json!({"run": run, "desc": desc}));
+    }
+}
+
 fn main() {
     let args: Vec<String> = std::env::args().collect();
     let mut outp = String::from("/dev/null");
@@ -639,6 +712,7 @@ fn main() {
     exec_sets(&mut ctx, se2_sets(&tier));
     exec_sets(&mut ctx, se3_sets(&tier));
     resolution_zero_probe(&mut ctx);
+    resetup_probe(&mut ctx);
     for o in ctx.outs.iter_mut() {
         o.flush().unwrap();
     }
